@@ -20,7 +20,7 @@ from . import symex
 from .alg import I, Poly, V, vsum
 from .core import AnalysisError
 from .src import arg_names
-from .symex import Arr, Interp, Opq, OpqArr, Tensor, View, opaque_atom, tov
+from .symex import Arr, Interp, Opq, OpqArr, Tensor, View, opaque_atom, sigma, tov
 
 NK = "bempp_cl/core/numba_kernels.py"
 
@@ -692,3 +692,88 @@ def check_singular(ctx, fname, assembly_type, kparams):
     okn = rng is not None and rng.eq(opaque_atom("number_of_quad_points", [pair]))
     out.append(("point-count", okn, "singular points loop bound is %s, expected number_of_quad_points[pair]" % (rng,)))
     return out, it, hooks
+
+
+# ====================================================================== potentials
+
+
+def _range_is(var, bound):
+    r = symex.RANGES.get(var)
+    return r is not None and r.eq(bound)
+
+
+def potential_spec(assembly_type, P, rp, f, kparams, d):
+    """Contribution of (element, quadrature point, shape function f) to component d at evaluation point P
+    (list of 3 coordinates), without the Σ markers."""
+    coeff = opaque_atom("x", [opaque_atom("#nshape") * rp.elem + f])
+    if assembly_type == "default_scalar":
+        Kat = opaque_atom("K", list(P) + rp.X() + [V.const(0)] * 3 + rp.n())
+        return Kat * rp.J() * rp.weight * rp.phi("shapeset", f) * coeff
+    Kat = opaque_atom("K", list(P) + rp.X() + NONE3 + NONE3)
+    k = kparams[0] + I * kparams[1]
+    a = [rp.weight * coeff * rp.ell(f) * rp.RT(f)[c] * rp.J() for c in range(3)]  # J w x l RT
+    c2 = V.const(2) * rp.weight * coeff * rp.ell(f)
+    diff = [P[c] - rp.X()[c] for c in range(3)]
+    dist = dot3(diff, diff).sqrt()
+    if assembly_type == "maxwell_electric_field":
+        return Kat * (I * k * a[d] - diff[d] * (I * k * dist - V.const(1)) * c2 / (I * k * dist * dist))
+    if assembly_type == "maxwell_magnetic_field":
+        val = [Kat * (I * k * dist - V.const(1)) * a[c] / (dist * dist) for c in range(3)]
+        return cross3(diff, val)[d]
+    if assembly_type == "maxwell_electric_far_field":
+        return Kat * (I * k * a[d] - P[d] * c2)
+    if assembly_type == "maxwell_magnetic_far_field":
+        val = [Kat * I * k * a[c] for c in range(3)]
+        return cross3(P, val)[d]
+    raise AnalysisError("no potential spec for " + assembly_type)
+
+
+def check_potential(ctx, fname, assembly_type, kparams, kernel_dimension):
+    it, hooks, ret = run_assembler(ctx, fname, "potential", kparams, kernel_dimension=kernel_dimension)
+    out = []
+    if not isinstance(ret, Arr):
+        out.append(("result", False, "potential kernel does not return its result array"))
+        return out, it, hooks
+    nq, ns, nf = opaque_atom("#quad"), opaque_atom("#support"), opaque_atom("#nshape")
+    # evaluation-point loop variable: the parallel loop
+    ploops = [l for w in it.writes if w[0] is ret for l in w[4] if l.parallel]
+    if not ploops:
+        out.append(("result", False, "result is not written inside a prange over evaluation points"))
+        return out, it, hooks
+    pv = V.atom(ploops[0].var)
+    P = [opaque_atom("points", [c, pv]) for c in range(3)]
+    okall = True
+    msgs = []
+    for d in range(kernel_dimension):
+        val = it.read(ret, [V.const(d), pv], it.fn)
+        sig, _ = markers(val)
+        fl = [s for s in sig if _range_is(sigma_var(s), nf)]
+        tl = [s for s in sig if _range_is(sigma_var(s), nq * ns)]
+        if len(sig) != 2 or len(fl) != 1 or len(tl) != 1:
+            okall = False
+            msgs.append("component %d: reductions %s are not (shape functions, support elements x quadrature points)" % (d, sig))
+            continue
+        Ev_, Qv = symex.fresh("E"), symex.fresh("Q")
+        symex.RANGES[Ev_], symex.RANGES[Qv] = ns, nq
+        E, Q = V.atom(Ev_), V.atom(Qv)
+        tv = sigma_var(tl[0])
+        act = symex.subst_index(val, {tv: nq * E + Q})
+        act = act.subs({tl[0]: sigma(Ev_) * sigma(Qv)})
+        f = V.atom(sigma_var(fl[0]))
+        rp = Pt("grid_data", opaque_atom("support_elements", [E]), [opaque_atom("quad_points", [0, Q]), opaque_atom("quad_points", [1, Q])],
+                opaque_atom("quad_weights", [Q]), "normal_multipliers")
+        exp = potential_spec(assembly_type, P, rp, f, kparams, d) * V.atom(fl[0]) * sigma(Ev_) * sigma(Qv)
+        if not act.eq(exp):
+            okall = False
+            msgs.append("component %d differs from the closed-form kernel sum" % d)
+    out.append(("kernel-sum", okall, "; ".join(msgs)))
+    # per-source data independent of the evaluation point: no write to anything but `result` inside the prange
+    leaks = sorted({w[0].desc for w in it.writes if w[0] is not ret and any(l.parallel for l in w[4]) and w[0].depth <= it.loops.__len__() and not _created_inside_parallel(w)})
+    out.append(("source-data-hoisted", not leaks, "arrays shared between evaluation points are written inside the prange: %s" % leaks))
+    return out, it, hooks
+
+
+def _created_inside_parallel(w):
+    arr, loops = w[0], w[4]
+    par_depth = next((i for i, l in enumerate(loops) if l.parallel), None)
+    return par_depth is not None and arr.depth > par_depth
